@@ -235,6 +235,28 @@ Definition rt_percent_valid (pct_equivocation pct_bad_results : N) : bool :=
 Definition rt_percent_valid_copy_paste (pct_equivocation pct_bad_results : N) : bool :=
   (pct_equivocation <=? 100) && (pct_equivocation <=? 100).
 
+(* (g) transaction fee checks in delivery -- consensus/api/transaction/gas.go:56-74 (Fee.GasPrice;
+   its Quo error would be a PANIC, and mux.DeliverTx / CheckTx do not recover) and
+   abci/transaction.go:92-100 (minimum gas price, after the per-byte gas was charged).
+   A fee is (amount, gas limit); None = the transaction carries no fee. *)
+Definition gas_price (amount gas : N) : res N :=
+  if (amount =? 0) || (gas =? 0) then Ok 0                 (* gas.go:57-59 *)
+  else qquo amount gas.                                    (* :67-71 *)
+
+(* Output: does the transaction pass the minimum gas price check? *)
+Definition fee_check (min_price : N) (fee : option (N * N)) : res bool :=
+  if min_price =? 0 then Ok true                           (* transaction.go:93 *)
+  else match fee with
+       | None => Ok false                                  (* :94-96 *)
+       | Some (amount, gas) =>
+           do p <- gas_price amount gas ;
+           Ok (negb (p <? min_price))                      (* :97-99 *)
+       end.
+
+(* the seeded variant: the guard of GasPrice with && instead of || *)
+Definition gas_price_and (amount gas : N) : res N :=
+  if (amount =? 0) && (gas =? 0) then Ok 0 else qquo amount gas.
+
 (* ------------------------------------------------------------------ *)
 (* (d) slashing -- state.go:768-855.  slashPool moves min(balance, balance*amount/total). *)
 Definition slash_pool (bal amount total : N) : res N :=
